@@ -92,6 +92,9 @@ def extra_groups():
     grp('subinput', [{'name': 'rematch_any', 'cxx': "rematch< rep< 2, any >, two< 'a' > >"}, {'name': 'rematch_until', 'cxx': "rematch< until< one< 'b' > >, star< one< 'a' > >, string< 'a', 'b' > >"},
                      {'name': 'minus', 'cxx': "minus< plus< one< 'a' > >, string< 'a', 'a' > >"},
                      ], alphabet='aab\\xc3\\xa4')
+    grp('rawstr', [{'name': 'raw_string', 'cxx': "raw_string< '[', '=', ']' >"}, {'name': 'raw_string_any', 'cxx': "raw_string< '[', '=', ']', any >"},
+                   {'name': 'raw_string_custom', 'cxx': "raw_string< '{', '#', '}', not_one< 'x' > >", 'can_match': True}],
+        includes=['tao/pegtl/contrib/raw_string.hpp'], alphabet='[[=]]{#}\\nax')
     grp('scan', [{'name': 'star_any', 'cxx': 'star< any >'}, {'name': 'until_b', 'cxx': "until< one< 'b' > >"}, {'name': 'identifier', 'cxx': 'identifier'},
                  {'name': 'keyword', 'cxx': "keyword< 'a', 'b' >"}, {'name': 'shebang', 'cxx': 'shebang'}, {'name': 'plus_utf8', 'cxx': 'plus< utf8::range< 0x80, 0x10ffff > >'}], alphabet='ab#!\\n\\xc3\\xa4')
     return G
